@@ -90,3 +90,139 @@ func CanReach(a, b ssa.Instruction) bool {
 	hit, _ := Search(After(a), Is(b), SearchOpt{})
 	return hit != nil
 }
+
+// CycleOf returns the blocks lying on a cycle through b (empty when b is not in a loop).
+func CycleOf(b *ssa.BasicBlock) map[*ssa.BasicBlock]bool {
+	c := cycleBlocks(b)
+	if !InCycle(b) {
+		return map[*ssa.BasicBlock]bool{}
+	}
+	return c
+}
+
+// StaleInit describes a pre-loop value that is derived from the initial value
+// of a loop-carried variable and used inside the loop directly (not through
+// the loop-carried variable): it keeps the first iteration's view.
+type StaleInit struct {
+	Phi   *ssa.Phi        // the loop-carried variable
+	Value ssa.Value       // the stale pre-loop derivative
+	Use   ssa.Instruction // its use inside the loop
+}
+
+// StaleInits finds, for every loop-carried variable (header phi with an edge
+// from inside and an edge from outside the loop), values computed outside the
+// loop from its initial value — by data flow, or by control flow (a phi joining
+// the arms of a branch on it) — that are used inside the loop.
+func StaleInits(fn *ssa.Function) []StaleInit {
+	var out []StaleInit
+	for _, hb := range fn.Blocks {
+		cyc := CycleOf(hb)
+		if len(cyc) == 0 {
+			continue
+		}
+		for _, in := range hb.Instrs {
+			phi, ok := in.(*ssa.Phi)
+			if !ok {
+				break
+			}
+			var inits []ssa.Value
+			hasInner := false
+			for i, p := range hb.Preds {
+				if cyc[p] {
+					if phi.Edges[i] != phi {
+						hasInner = true
+					}
+				} else {
+					inits = append(inits, phi.Edges[i])
+				}
+			}
+			if !hasInner || len(inits) == 0 {
+				continue
+			}
+			for _, v := range inits {
+				if _, isConst := v.(*ssa.Const); isConst {
+					continue
+				}
+				tainted := map[ssa.Value]bool{}
+				dependsOn := func(x ssa.Value) bool {
+					return Mentions(x, 6, func(y ssa.Value) bool { return y == v || tainted[y] })
+				}
+				// fixed point over pre-loop instructions
+				for changed := true; changed; {
+					changed = false
+					for _, b := range fn.Blocks {
+						for _, ins := range b.Instrs {
+							if cyc[b] {
+								// only a pre-loop join that go/ssa folded into the loop header: a header phi
+								// whose in-loop edges are all the phi itself
+								p2, isPhi := ins.(*ssa.Phi)
+								if !isPhi || b != hb || !selfCarried(p2, cyc) {
+									continue
+								}
+							}
+							val, isVal := ins.(ssa.Value)
+							if !isVal || tainted[val] || val == v {
+								continue
+							}
+							if p2, isPhi := ins.(*ssa.Phi); isPhi {
+								// control dependence: a dominating branch on a tainted condition whose both arms reach this join
+								for _, kb := range fn.Blocks {
+									if cyc[kb] || kb == b || !kb.Dominates(b) || len(kb.Instrs) == 0 || len(p2.Edges) < 2 {
+										continue
+									}
+									iff, isIf := kb.Instrs[len(kb.Instrs)-1].(*ssa.If)
+									if !isIf || !dependsOn(iff.Cond) {
+										continue
+									}
+									tainted[p2] = true
+									changed = true
+								}
+								if tainted[p2] {
+									continue
+								}
+							}
+							if _, isCall := ins.(*ssa.Call); isCall {
+								continue // results of calls are new facts, not views of the variable
+							}
+							if dependsOn(val) && val != v {
+								tainted[val] = true
+								changed = true
+							}
+						}
+					}
+				}
+				for t := range tainted {
+					refs := t.Referrers()
+					if refs == nil {
+						continue
+					}
+					for _, r := range *refs {
+						if r.Block() != nil && cyc[r.Block()] {
+							if _, isPhi := r.(*ssa.Phi); isPhi && r.Block() == hb {
+								continue
+							}
+							out = append(out, StaleInit{phi, t, r})
+						}
+					}
+				}
+			}
+		}
+	}
+	return out
+}
+
+// selfCarried: every edge of the header phi that comes from inside the loop is the phi itself
+// (the variable is not modified in the loop; its distinct values all come from before the loop).
+func selfCarried(phi *ssa.Phi, cyc map[*ssa.BasicBlock]bool) bool {
+	outer := 0
+	for i, p := range phi.Block().Preds {
+		if cyc[p] {
+			if phi.Edges[i] != phi {
+				return false
+			}
+		} else {
+			outer++
+		}
+	}
+	return outer >= 2
+}
